@@ -527,7 +527,7 @@ def _execute_power(plan, ctx, base):
         except Exception:
             continue
         if any(r.dtype != np.dtype(sp['dtype']) for r in m_res) and \
-                op['t'] == 'legacy' and op.get('out'):
+                op.get('out'):
             continue
         legacy = op['t'] == 'legacy'
         out = None
@@ -542,8 +542,23 @@ def _execute_power(plan, ctx, base):
                                                                out=out)
                     else:
                         res = getattr(ins[0].ufuncs, op['uf'])(*ins[1:])
+                elif op.get('out'):
+                    # NumPy call with a product-space element as out
+                    out = P.element()
+                    for a in elem_arrays(out):
+                        fill_garbage(a, op['fill'], 1)
+                    try:
+                        res = uf(*ins, out=out)
+                    except TypeError as e:
+                        raise Violation(
+                            'C17', 'C17/raise/power/call-with-out/TypeError',
+                            'np.{}(X, out=Y) with product-space elements '
+                            'raised TypeError: {}'.format(op['uf'],
+                                                          str(e)[:120]))
                 else:
                     res = uf(*ins)
+        except Violation:
+            raise
         except Exception as e:
             raise Violation('C17', 'C17/raise/power/{}/{}'.format(
                 'legacy' if legacy else 'call', type(e).__name__),
@@ -558,6 +573,12 @@ def _execute_power(plan, ctx, base):
                             'result of {} is {!r:.60}'.format(op['uf'], res))
         for k, (p, m) in enumerate(zip(res.parts, m_res)):
             pa = np.asarray(p.asarray())
+            if out is None and pa.dtype != m.dtype:
+                raise Violation('C17', 'C17/result-dtype/power/' + op['t'],
+                                '{} on {} power-space elements: result dtype '
+                                '{} but NumPy gives {} on the underlying '
+                                'arrays'.format(op['uf'], sp['dtype'],
+                                                pa.dtype, m.dtype))
             if pa.shape != m.shape or _bits(pa.astype(m.dtype)) != _bits(m):
                 if m.dtype != np.dtype(sp['dtype']):
                     raise Violation(
